@@ -638,6 +638,9 @@ func init() {
 		if err := c12CollectFacts(repo, &sb); err != nil {
 			return "", err
 		}
+		if err := c12FilterFacts(repo, &sb); err != nil {
+			return "", err
+		}
 		return sb.String(), nil
 	}})
 }
